@@ -37,7 +37,11 @@ func PersistedQueryExtension(storage PersistedQueryStorage, execute func(*graphq
 				// errors parsing the hash can be ignored: hash will end up empty and we'll error
 				// out due to not being able to find the query
 				hashHex, _ := ext["sha256Hash"].(string)
-				hash, _ := hex.DecodeString(hashHex)
+				hash, err := hex.DecodeString(hashHex)
+				if err != nil {
+					// hex.DecodeString returns the bytes decoded before the error
+					hash = nil
+				}
 
 				found := false
 				if bytes.Equal(hash, emptyStringHash[:]) {
